@@ -301,7 +301,7 @@ def run(ck):
 
     # ---------------- R4 ----------------
     hp = lib.single(prog, T + "handlePeer")
-    for name, pred in (("peers.insert", lambda e: e["k"] == "call" and e.base_callee() == "std::unordered_map::insert" and strip_tmpl((e.get("recv") or {}).get("f") or "") == T + "peers"),
+    for name, pred in (("peers.insert", lambda e: e["k"] == "call" and e.base_callee() in ("std::unordered_map::insert", "std::unordered_map::emplace", "std::unordered_map::try_emplace", "std::unordered_map::insert_or_assign") and strip_tmpl((e.get("recv") or {}).get("f") or "") == T + "peers"),
                        ("onConnection", lambda e: e["k"] == "call" and (e.get("callee") or "") == "Pistache::Tcp::Handler::onConnection"),
                        ("registerFd", lambda e: e["k"] == "call" and (e.get("callee") or "") == "Pistache::Aio::Reactor::registerFd")):
         cnt = count_on_paths(hp, pred)
